@@ -106,14 +106,17 @@ static void prop(Ctx &c) {
         if (lib::fd_bytes(fd) != T) { fsig = "file-modified"; fmsg = std::string(name) + " modified the file"; }
     };
     for (int op : ops) { run_op(op, "before the read"); if (!fsig.empty()) break; }
+    // a validation that fails leaves an error message on the context; a caller that goes on to read clears it first.
+    // Only when that is impossible (fatal state) is the content delivered before a failing read not comparable.
+    bool sticky = false; if (fsig.empty() && zck_is_error(ctx)) { sticky = !zck_clear_error(ctx); c.label(sticky ? "fatal-error-after-validation" : "error-cleared-before-read"); }
     if (fsig.empty()) {
         // full read on the same context; compare with the baseline
         lib::RResult rr; rr.open_ok = true; rr.read_ok = true; std::vector<char> buf; size_t k = 0;
         for (;;) { size_t nn = rs[k++ % rs.size()]; if (!nn) nn = 1; if (buf.size() < nn) buf.resize(nn); ssize_t g = zck_read(ctx, buf.data(), nn);
                    if (g < 0) { rr.read_ok = false; break; } if (g == 0) break; rr.data.insert(rr.data.end(), buf.data(), buf.data() + g); if (rr.data.size() > ((size_t)64 << 20)) { rr.read_ok = false; break; } }
         if (rr.read_ok) rr.close_ok = zck_close(ctx);
-        // when the read itself fails on both, the amount of content delivered before the error is not compared
-        if (rr.read_ok != base.read_ok || rr.close_ok != base.close_ok || (base.read_ok && rr.data != base.data)) {
+        // the content delivered before a failing read is compared too, unless the validations left a fatal error behind
+        if (rr.read_ok != base.read_ok || rr.close_ok != base.close_ok || ((base.read_ok || !sticky) && rr.data != base.data)) {
             fsig = "read-depends-on-validation";
             fmsg = "after the validations the read gave (read_ok=" + std::to_string(rr.read_ok) + ", close_ok=" + std::to_string(rr.close_ok) + ", " + std::to_string(rr.data.size()) + " bytes), a fresh context gives (read_ok=" +
                    std::to_string(base.read_ok) + ", close_ok=" + std::to_string(base.close_ok) + ", " + std::to_string(base.data.size()) + " bytes)";
